@@ -99,7 +99,7 @@ impl Check for C07 {
                 0 => (Budget::Production, "production-500ms"),
                 1 => (Budget::Steps(50), "steps-50"),
                 2 => (Budget::Steps(500), "steps-500"),
-                _ => (Budget::Steps(if rc.cost_kind == "some-200-255" { 600 } else { 5000 }), "steps-5000"),
+                _ => (Budget::Steps(if rc.cost_kind.ends_with("200-255") { 600 } else { 5000 }), "steps-5000"),
             };
             out.evals += 1;
             out.count("parses", 1);
